@@ -55,6 +55,20 @@ func c18Inputs(tier string) []c18Input {
 	// unreadable
 	ins = append(ins, c18Input{Name: "nonexistent-file", File: "/nonexistent/verif/file.yaml", FailAt: -1})
 	ins = append(ins, c18Input{Name: "directory-as-file", File: os.TempDir(), FailAt: -1})
+	// the other ways in which opening fails: a path through a regular file, an over-long name, a loop of links
+	if exe, err := os.Executable(); err == nil {
+		ins = append(ins, c18Input{Name: "path-through-a-regular-file", File: exe + "/log.yaml", FailAt: -1})
+	}
+	ins = append(ins, c18Input{Name: "name-too-long", File: os.TempDir() + "/" + strings.Repeat("n", 300) + ".yaml", FailAt: -1})
+	loopDir := os.Getenv("VERIF_TMP") // the worker's own directory, removed with the run
+	if loopDir == "" {
+		loopDir = os.TempDir()
+	}
+	loop := fmt.Sprintf("%s/verif-c18-loop-%d", loopDir, os.Getpid())
+	os.Symlink(loop, loop)
+	if _, err := os.Open(loop); err != nil && !os.IsNotExist(err) {
+		ins = append(ins, c18Input{Name: "loop-of-symbolic-links", File: loop, FailAt: -1})
+	}
 	ins = append(ins, c18Input{Name: "over-long-line-after-a-record", Text: "a:\n  x: 1\nb:\n  " + strings.Repeat("n", 70000) + ": 1\n", FailAt: -1})
 	ins = append(ins, c18Input{Name: "over-long-first-line", Text: strings.Repeat("n", 70000) + ":\n  x: 1\n", FailAt: -1})
 	full := strings.Join(good, "")
